@@ -490,15 +490,15 @@ def freshBalance (cx : DCtx) (c : TokenCfg) (s : DState) : Balance :=
   let (tp, dl, gm) := valueLoop cx c s.book s.positions (0, 0, 0)
   { netValue := cx.num.add s.cash tp, cash := s.cash, premium := tp, delta := dl, gamma := gm }
 
-/-- `get_market_balance`: recomputed on the hourly grid; off the grid the cached premium and greeks are
-    kept and the cash part follows `self.balance` -/
+/-- `get_market_balance`: recomputed on the hourly grid and whenever no cached valuation exists yet; otherwise
+    (a closed minute of the hour) the cached premium and greeks are kept and the cash part follows `self.balance` -/
 def getMarketBalance (cx : DCtx) (c : TokenCfg) (s : DState) : Outcome × DState :=
-  if s.onGrid then
+  if s.onGrid || s.cache.isNone then
     let b := freshBalance cx c s
     (.ok (.balance (some b)), { s with cache := some b })
   else
     match s.cache with
-    | none => (.ok (.balance none), s)
+    | none => (.ok (.balance none), s)         -- unreachable
     | some b =>
       if b.cash = s.cash then (.ok (.balance (some b)), s)
       else
